@@ -7,6 +7,7 @@ package subscriptions
 
 import (
 	"fmt"
+	"net/http"
 
 	"github.com/vechain/thor/v2/api"
 	"github.com/vechain/thor/v2/thor"
@@ -33,4 +34,19 @@ func (s *Subscriptions) VerifNewReader(kind string, position thor.Bytes32) (Veri
 		return newTransferReader(s.repo, position, &api.SubscriptionTransferFilter{}), nil
 	}
 	return nil, fmt.Errorf("unknown subscription kind %q", kind)
+}
+
+// VerifServe upgrades the request to a websocket and streams the given reader through the real pipe
+// (setupConn, pipe, closeConn), exactly as the websocket handlers do with the reader they build.
+// The harness uses it to put its own wrapper around a reader built by VerifNewReader.
+func (s *Subscriptions) VerifServe(w http.ResponseWriter, req *http.Request, reader VerifReader) error {
+	s.wg.Add(1)
+	defer s.wg.Done()
+	conn, closed, err := s.setupConn(w, req)
+	if err != nil {
+		return err
+	}
+	err = s.pipe(conn, reader, closed)
+	s.closeConn(conn, err)
+	return err
 }
